@@ -22,8 +22,8 @@ FIXED = {
 
 RX_BYTEORDER = re.compile(r"^byteorder::(io::)?WriteBytesExt::(write_[a-z0-9]+)$")
 RX_WRITE_ALL = re.compile(r"^std::io::Write::write_all$|<.* as std::io::Write>::write_all$")
-RX_LENENC_INT = re.compile(r"mysql_common::io::WriteMysqlExt::write_lenenc_int$")
-RX_LENENC_STR = re.compile(r"mysql_common::io::WriteMysqlExt::write_lenenc_str$")
+RX_LENENC_INT = re.compile(r"(mysql_common|myc)::io::WriteMysqlExt::write_lenenc_int$")
+RX_LENENC_STR = re.compile(r"(mysql_common|myc)::io::WriteMysqlExt::write_lenenc_str$")
 RX_END_PACKET = re.compile(r"packet::PacketConn::<.*>::(end_packet|maybe_end_packet)$")
 RX_FLUSH = re.compile(r"<packet::PacketConn<.*> as std::io::Write>::flush$|^std::io::Write::flush$")
 RX_VALUE = re.compile(r"value::encode::ToMysqlValue::(to_mysql_text|to_mysql_bin)$|as value::encode::ToMysqlValue>::(to_mysql_text|to_mysql_bin)$")
